@@ -23,6 +23,7 @@ import numpy as np
 from common import CORPUS, q
 
 CONFIG = {
+    "source_ties": 'Since round 7 also tied statically: harness/py2v_op.py translates GaussianOperator.ask / IsoLineOperator.ask per coordinate on every run; Refine/OpRefine.v proves them equal to gaussian_op / isoline_op of Model/Emit.v for all matrices and bounds.',
     "cone": ["Base/ListUtil.v", "Model/Store.v", "Model/Emit.v", "Proofs/EmitProofs.v", "Properties/C08.v",
              "Model/OpFacts.v", "Generated/OpGen.v", "Refine/OpRefine.v"],
     "extra_property_files": ["Refine/OpRefine.v"],
